@@ -469,6 +469,8 @@ fn main() {
         Some("duplicate") => duplicate(),
         Some("pop_halves") => pop_halves(),
         Some("lost_index") => lost_index(),
+        Some("after_quorum") => after_quorum(),
+        Some("batch_same_message") => batch_same_message(),
         Some("merkle_forge") => merkle_forge(&a[1]),
         Some("sample_points") => {
             let params = Parameters { m: 4, k: 2, phi_f: 1.0 };
@@ -645,4 +647,69 @@ fn lost_index() -> String {
         }
     }
     "scenario-not-built".to_string()
+}
+
+
+/// the verifier's quorum (k = 2) is reached before the end of the signature list; the LAST entry then carries an index >= m,
+/// an index already used by an earlier entry, or an unsorted list hiding an out-of-range index: every variant must be refused
+fn after_quorum() -> String {
+    let wide = Parameters { m: 6, k: 4, phi_f: 1.0 };
+    let verify_params = Parameters { k: 2, ..wide };
+    let (signers, clerk) = setup(wide, &[10, 10]);
+    let msg = b"verif-replay".to_vec();
+    let a = with_indexes(&signers[0].create_single_signature(&msg).unwrap(), &[0, 1]);
+    let b = with_indexes(&signers[1].create_single_signature(&msg).unwrap(), &[2, 3]);
+    let base = agg_json(&clerk, &[a, b], &msg);
+    let avk = clerk.compute_aggregate_verification_key();
+    let n = base["signatures"].as_array().unwrap().len();
+    if n != 2 { return "scenario-not-built".to_string(); }
+    let first: Vec<u64> = base["signatures"][0][0]["indexes"].as_array().unwrap().iter().map(|x| x.as_u64().unwrap()).collect();
+    let last: Vec<u64> = base["signatures"][1][0]["indexes"].as_array().unwrap().iter().map(|x| x.as_u64().unwrap()).collect();
+    let mut out = Vec::new();
+    let mut case = |name: &str, idx: Vec<u64>, which: usize, want_ok: bool| {
+        let mut v = base.clone();
+        v["signatures"][which][0]["indexes"] = serde_json::json!(idx);
+        let r = match serde_json::from_value::<mithril_stm::AggregateSignature<D>>(v) {
+            Ok(f) => { let (m2, a2) = (msg.clone(), avk.clone()); catch(move || verdict(f.verify(&m2, &a2, &verify_params, None, None))) }
+            Err(_) => "rejected (decode)".to_string(),
+        };
+        let ok = r.starts_with("accepted");
+        out.push(format!("{}={}{}", name, if ok == want_ok { "" } else { "VIOLATED " }, r.chars().take(20).collect::<String>()));
+    };
+    case("honest_wider_than_k", last.clone(), 1, true);
+    case("last_entry_index_beyond_m", [last.clone(), vec![wide.m + 3]].concat(), 1, false);
+    case("last_entry_repeats_first_entry_index", [last.clone(), vec![first[0]]].concat(), 1, false);
+    case("out_of_range_index_before_the_last_index", [vec![wide.m + 1000], last.clone()].concat(), 1, false);
+    case("first_entry_out_of_range_index_not_last", [vec![wide.m + 7], first.clone()].concat(), 0, false);
+    out.join(" ")
+}
+
+/// a batch whose members share message and aggregate key: a forged member (an honest aggregate of ANOTHER message claimed for this
+/// one) next to an honest one must make the batch fail, wherever it stands
+fn batch_same_message() -> String {
+    let params = Parameters { m: 6, k: 2, phi_f: 1.0 };
+    let (signers, clerk) = setup(params, &[10, 10]);
+    let msg = b"verif-replay".to_vec();
+    let other = b"another message".to_vec();
+    let avk = clerk.compute_aggregate_verification_key();
+    let mk = |m: &[u8]| -> mithril_stm::AggregateSignature<D> {
+        let a = with_indexes(&signers[0].create_single_signature(m).unwrap(), &[0, 1]);
+        serde_json::from_value(agg_json(&clerk, &[a], m)).unwrap()
+    };
+    let honest = mk(&msg);
+    let forged = mk(&other);
+    let alone = verdict(forged.verify(&msg, &avk, &params, None, None));
+    let batch = |members: Vec<mithril_stm::AggregateSignature<D>>| -> String {
+        let n = members.len();
+        verdict(mithril_stm::AggregateSignature::<D>::batch_verify(&members, &vec![msg.clone(); n], &vec![avk.clone(); n], &vec![params; n], &vec![None; n], &vec![None; n]))
+    };
+    let mut out = vec![format!("forged_alone={}", if alone.starts_with("accepted") { "VIOLATED accepted" } else { "rejected" })];
+    for (name, members) in [("honest_honest", vec![honest.clone(), honest.clone()]), ("forged_honest", vec![forged.clone(), honest.clone()]),
+                            ("honest_forged", vec![honest.clone(), forged.clone()]), ("honest_forged_honest", vec![honest.clone(), forged.clone(), honest.clone()])] {
+        let r = batch(members);
+        let ok = r.starts_with("accepted");
+        let want = name == "honest_honest";
+        out.push(format!("{}={}{}", name, if ok == want { "" } else { "VIOLATED " }, r.chars().take(20).collect::<String>()));
+    }
+    out.join(" ")
 }
